@@ -15,7 +15,7 @@ pub fn rules() -> Vec<Rewrite> { vec![
     rw!("add-same";  "(+ ?a ?a)" => "(* ?a 2)"),
     rw!("add-neg";   "(+ ?a (- ?b))" => "(- ?a ?b)"),
 
-    rw!("mul-zero";  "(* ?a 0)" => "0"),
+    // (no `(* ?a 0) => 0`, `(- ?a ?a) => 0`, `(= ?a ?a) => true` ...: they are wrong when ?a is NULL)
     rw!("mul-one";   "(* ?a 1)" => "?a"),
     rw!("mul-minus"; "(* ?a -1)" => "(- ?a)"),
     rw!("mul-comm";  "(* ?a ?b)"        => "(* ?b ?a)"),
@@ -29,7 +29,6 @@ pub fn rules() -> Vec<Rewrite> { vec![
 
     rw!("sub-zero";   "(- ?a 0)" => "?a"),
     rw!("zero-sub";   "(- 0 ?a)" => "(- ?a)"),
-    rw!("sub-cancel"; "(- ?a ?a)" => "0"),
 
     rw!("div-cancel"; "(/ ?a ?a)" => "1" if is_not_zero("?a")),
 
@@ -38,12 +37,6 @@ pub fn rules() -> Vec<Rewrite> { vec![
 
     rw!("recip-mul-div"; "(* ?x (/ 1 ?x))" => "1" if is_not_zero("?x")),
 
-    rw!("eq-eq";     "(=  ?a ?a)" => "true"),
-    rw!("ne-eq";     "(<> ?a ?a)" => "false"),
-    rw!("gt-eq";     "(>  ?a ?a)" => "false"),
-    rw!("lt-eq";     "(<  ?a ?a)" => "false"),
-    rw!("ge-eq";     "(>= ?a ?a)" => "true"),
-    rw!("le-eq";     "(<= ?a ?a)" => "true"),
     rw!("eq-comm";   "(=  ?a ?b)" => "(=  ?b ?a)"),
     rw!("ne-comm";   "(<> ?a ?b)" => "(<> ?b ?a)"),
     rw!("gt-comm";   "(>  ?a ?b)" => "(<  ?b ?a)"),
